@@ -73,7 +73,23 @@ impl Evidence {
         });
         let dir = root().join("evidence");
         let _ = fs::create_dir_all(&dir);
-        fs::write(dir.join(format!("{}.json", self.property)), serde_json::to_string_pretty(&v).unwrap() + "\n").unwrap();
+        let path = dir.join(format!("{}.json", self.property));
+        let mut v = v;
+        if let Ok(stage) = std::env::var("JV_MERGE") {
+            // a later stage of a multi-stage check: keep the earlier coverage, add ours under `stage`
+            if let Some(mut prev) = fs::read_to_string(&path).ok().and_then(|s| serde_json::from_str::<Value>(&s).ok()) {
+                let mine = v["coverage"].clone();
+                let add = |a: &Value, b: &Value| json!(a.as_u64().unwrap_or(0) + b.as_u64().unwrap_or(0));
+                prev["coverage"]["evaluations"] = add(&prev["coverage"]["evaluations"], &mine["evaluations"]);
+                prev["coverage"]["distinct_nontrivial"] = add(&prev["coverage"]["distinct_nontrivial"], &mine["distinct_nontrivial"]);
+                prev["coverage"]["programs"] = add(&prev["coverage"]["programs"], &mine["programs"]);
+                prev["coverage"][stage.as_str()] = mine;
+                prev["violations"] = add(&prev["violations"], &v["violations"]);
+                prev["wall_s"] = json!(prev["wall_s"].as_f64().unwrap_or(0.0) + v["wall_s"].as_f64().unwrap_or(0.0));
+                v = prev;
+            }
+        }
+        fs::write(path, serde_json::to_string_pretty(&v).unwrap() + "\n").unwrap();
     }
 }
 
